@@ -61,7 +61,7 @@ Init ==
   /\ step = 0
   /\ prov = [l \in LeafSet |-> {}]
   /\ pathProv = {} /\ fstate = "ok" /\ bad = "" /\ fmt \in Fmts /\ watch \in BOOLEAN
-  /\ fopt = [alias |-> FALSE, enc |-> "none", emptyset |-> FALSE]
+  /\ fopt = [alias |-> FALSE, enc |-> "none", emptyset |-> FALSE, emptypath |-> FALSE]
   /\ ran = [done |-> FALSE, err |-> "", verify |-> <<>>, exposed |-> 0]
   /\ view = [l \in LeafSet |-> 0]
   /\ changes = <<>>
@@ -81,9 +81,12 @@ ChooseFile ==
   \* spelling of the file's keys: either name of an aliased leaf sets it, whatever casing the file uses (C14 through ez)
   \* emptyset: every version of the file also assigns the empty list to a set-typed leaf whose default is not empty (a leaf
   \* outside Leaves that only the file ever sets): while a usable file is stacked, the view's set is empty, else the default
-  /\ \E al \in BOOLEAN, enc \in FileEncs, es \in BOOLEAN :
+  \* emptypath: the winning provider of the config path supplies the empty string (CFGFILE= in the environment, say) while
+  \* ConfigPath still says "use it": that names no readable file - an error, never "no config file"
+  /\ \E al \in BOOLEAN, enc \in FileEncs, es \in BOOLEAN, ep \in BOOLEAN :
        /\ (al => AliasLeaf \in LeafSet /\ "file" \in prov[AliasLeaf])
-       /\ fopt' = [alias |-> al, enc |-> enc, emptyset |-> es]
+       /\ (ep => pathProv' # {})
+       /\ fopt' = [alias |-> al, enc |-> enc, emptyset |-> es, emptypath |-> ep]
   /\ step' = step + 1
   /\ UNCHANGED <<prov, fmt, watch, ran, view, changes>>
 
@@ -91,9 +94,9 @@ Run ==
   /\ step = Len(Leaves) + 1
   /\ LET hasPath == pathProv # {}
          fileLeaves == {l \in LeafSet : "file" \in prov[l]}
-         full == StackOf(hasPath /\ fstate = "ok", fileLeaves, bad = "file")
+         full == StackOf(hasPath /\ fstate = "ok" /\ ~fopt.emptypath, fileLeaves, bad = "file")
          inter == StackOf(FALSE, {}, FALSE)
-         err == IF hasPath /\ fstate # "ok" THEN "file"
+         err == IF hasPath /\ (fstate # "ok" \/ fopt.emptypath) THEN "file"
                 ELSE IF BUG_VerifyIntermediate /\ hasPath /\ ~Valid(inter) THEN "verify"
                 ELSE IF ~Valid(full) THEN "verify" ELSE ""
      IN /\ ran' = [done |-> TRUE, err |-> err,
@@ -124,7 +127,7 @@ Next == ChooseLeaf \/ ChooseFile \/ Run \/ FileChange
 Spec == Init /\ [][Next]_vars
 
 \* ------------------------------ properties ------------------------------
-Top(l) == LET P == prov[l] \ (IF pathProv # {} /\ fstate = "ok" THEN {} ELSE {"file"}) IN
+Top(l) == LET P == prov[l] \ (IF pathProv # {} /\ fstate = "ok" /\ ~fopt.emptypath THEN {} ELSE {"file"}) IN
           IF P = {} THEN "none" ELSE CHOOSE L \in P : \A M \in P : Rank(M) <= Rank(L)
 ValT(l) == IF Top(l) = "none" THEN 0 ELSE ValF(Top(l), l, bad = "file")
 TrueCfg == [l \in LeafSet |-> ValT(l)]
@@ -132,7 +135,7 @@ TrueCfg == [l \in LeafSet |-> ValT(l)]
 Precedence == (ran.done /\ ran.err = "" /\ changes = <<>>) => \A l \in LeafSet : view[l] = ValT(l)
 \* the entry point fails with the Verify error exactly when the FULL stack does not verify
 VerifyFailureIffFullInvalid ==
-  ran.done => ((ran.err = "verify") <=> (~(pathProv # {} /\ fstate # "ok") /\ ~Valid(TrueCfg)))
+  ran.done => ((ran.err = "verify") <=> (~(pathProv # {} /\ (fstate # "ok" \/ fopt.emptypath)) /\ ~Valid(TrueCfg)))
 \* Verify sees only the full stack, exactly once; a visible config is valid
 VerifyOnlyFull == ran.done => Len(ran.verify) <= 1
 VisibleValid == (ran.done /\ ran.err = "") => Valid(view)
